@@ -88,6 +88,13 @@ func c09pRun(sc c09pScenario) (vs []ev.V) {
 		}
 		nodes = append(nodes, mod(first), config.Node{Name: "destination", Args: []string{"example.org"}, Children: append([]config.Node{mod(second2), deliver}, second...)},
 			config.Node{Name: "default_destination", Children: []config.Node{{Name: "reject"}}})
+	case sc.Level == "reroute":
+		// the rewritten recipients are handed to a nested pipeline (its Start runs inside the outer AddRcpt)
+		nodes = append(nodes, mod(args), config.Node{Name: "reroute", Children: append([]config.Node{deliver}, second...)})
+	case sc.Level == "reroute-in-destination":
+		nodes = append(nodes, config.Node{Name: "destination", Args: []string{"example.org"}, Children: []config.Node{mod(args),
+			{Name: "reroute", Children: append([]config.Node{deliver}, second...)}}},
+			config.Node{Name: "default_destination", Children: []config.Node{{Name: "reject"}}})
 	default:
 		nodes = append(append(nodes, mod(args), deliver), second...)
 	}
@@ -160,8 +167,8 @@ func c09pRun(sc c09pScenario) (vs []ev.V) {
 
 func TestVerifC09Pipeline(t *testing.T) {
 	r := ev.Get("C09")
-	ev.Run(t, r, ev.Spec[c09pScenario]{Name: "pipeline", N: r.N, Gen: func(t *rapid.T) c09pScenario {
-		sc := c09pScenario{Rewrites: map[int][]int{}, Level: rapid.SampledFrom([]string{"global", "source", "destination", "both"}).Draw(t, "level")}
+	ev.Run(t, r, ev.Spec[c09pScenario]{Name: "pipeline", Journal: true, N: r.N, Gen: func(t *rapid.T) c09pScenario {
+		sc := c09pScenario{Rewrites: map[int][]int{}, Level: rapid.SampledFrom([]string{"global", "source", "destination", "both", "reroute", "reroute-in-destination"}).Draw(t, "level")}
 		next := 0
 		for k := 0; k < len(c09pClient); k++ {
 			if rapid.Bool().Draw(t, "rewritten") && next < len(c09pEffective) {
